@@ -368,7 +368,8 @@ def main():
     # ---- (2) DMRs emitted by pydap's own DMR response
     n_srv = 60 if T == "quick" else 800
     for i in range(n_srv):
-        dims = {n: rng.randint(1, 5) for n in rng.sample(SHORT, rng.randint(1, 3))}
+        # extents from 0 (an empty dimension is a dimension) to 5
+        dims = {n: rng.choice([0, 1, 2, 3, 4, 5]) for n in rng.sample(SHORT, rng.randint(1, 3))}
         ds = DatasetType("srv%d" % i, dimensions=dict(dims))
         spec = []
         gdims = {(): dims}
@@ -394,7 +395,7 @@ def main():
                 spec.append((fq, dt, shape, list(dnames)))
         add_vars((), set())
         for g in rng.sample(GROUPS, rng.randint(0, 2)):
-            gd = {n: rng.randint(1, 5) for n in rng.sample(SHORT, rng.randint(0, 2))}
+            gd = {n: rng.choice([0, 1, 2, 3, 5]) for n in rng.sample(SHORT, rng.randint(0, 2))}
             if gd or rng.random() < 0.5:
                 ds.createGroup("/" + g, dimensions=dict(gd))
             else:
@@ -403,7 +404,7 @@ def main():
             add_vars((g,), set())
             if rng.random() < 0.5:
                 g2 = rng.choice([x for x in GROUPS if x != g])
-                gd2 = {n: rng.randint(1, 5) for n in rng.sample(SHORT, rng.randint(0, 2))}
+                gd2 = {n: rng.choice([0, 1, 2, 4, 5]) for n in rng.sample(SHORT, rng.randint(0, 2))}
                 ds.createGroup("/%s/%s" % (g, g2), dimensions=dict(gd2))
                 gdims[(g, g2)] = gd2
                 add_vars((g, g2), set())
